@@ -43,6 +43,9 @@ type c01Cfg struct {
 	// StartIndex: read = write index found on disk by the first incarnation (an empty queue that has been in use): the
 	// item indexes of the run then lie around a power of two instead of starting at 0
 	StartIndex uint64 `json:"start_index,omitempty"`
+	// Empties: every third request is an empty payload - a request all the same, stored with a zero-length encoding and
+	// handed to the export function like any other (no batcher in such runs: a merge makes empty requests vanish)
+	Empties bool `json:"every_third_request_empty,omitempty"`
 }
 
 var (
@@ -82,13 +85,16 @@ type c01Life struct {
 	handed   map[int]int
 	recFinal map[string]bool // "req/idx" -> a hand-off holding the record completed with a final outcome
 	recOf    map[int]int     // request -> number of records
-	callSeq  map[string]int
-	inCall   map[string][]string // gate id -> records
-	trace    []string
-	viol     []simkit.Violation
-	crashes  []string // shape of each crash site that fired
-	lifeLog  []string
-	mu       sync.Mutex
+	// empty requests cannot be told apart: at least as many empty hand-offs must complete with a final outcome as
+	// empty requests were acknowledged
+	emptyFinal int
+	callSeq    map[string]int
+	inCall     map[string][]string // gate id -> records
+	trace      []string
+	viol       []simkit.Violation
+	crashes    []string // shape of each crash site that fired
+	lifeLog    []string
+	mu         sync.Mutex
 }
 
 func (l *c01Life) logf(f string, a ...any) { l.lifeLog = append(l.lifeLog, fmt.Sprintf(f, a...)) }
@@ -155,6 +161,23 @@ func (l *c01Life) startInc() {
 			}
 			recs := recordsOf(ld)
 			l.mu.Lock()
+			if len(recs) == 0 && l.cfg.Empties {
+				if b, _ := (&plog.ProtoMarshaler{}).MarshalLogs(ld); len(b) != 0 {
+					l.failf("garbage", "payload", "incarnation %d handed over a payload without records that is not the empty request (%d bytes)", ord, len(b))
+				}
+				l.callSeq["0/e"]++
+				gid := fmt.Sprintf("exp:0/e#%d", l.callSeq["0/e"])
+				l.inCall[fmt.Sprintf("%d|%s", ord, gid)] = []string{"<empty>"}
+				l.mu.Unlock()
+				v, ok := ci.gate.ParkCtx(gid, ctx.Done())
+				if !ok {
+					return ctx.Err()
+				}
+				if v == nil {
+					return nil
+				}
+				return v.(error)
+			}
 			if len(recs) == 0 {
 				l.failf("garbage", "payload", "incarnation %d handed over a payload without records", ord)
 			}
@@ -340,6 +363,10 @@ func (l *c01Life) answerOldest(outcome error) bool {
 		if outcome == nil || consumererror.IsPermanent(outcome) || !l.cfg.Retry {
 			l.mu.Lock()
 			for _, rc := range l.inCall[fmt.Sprintf("%d|%s", l.cur.ord, id)] {
+				if rc == "<empty>" {
+					l.emptyFinal++
+					continue
+				}
 				l.recFinal[rc] = true
 			}
 			l.mu.Unlock()
@@ -411,6 +438,10 @@ func (l *c01Life) run() {
 			l.nextID++
 			id := l.nextID
 			ld, b := mkLogs(id)
+			if l.cfg.Empties && id%3 == 0 {
+				ld, b = plog.NewLogs(), nil
+				l.r.Count("probe.empty_request_enqueued")
+			}
 			l.payload[id] = b
 			l.recOf[id] = ld.LogRecordCount()
 			l.cur.noPark.Store(true)
@@ -495,6 +526,15 @@ func (l *c01Life) run() {
 			l.failf("loss", locus, "request %d was accepted (enqueue returned nil to a live process) but no hand-off of it ever completed with a final outcome; hand-offs started: %d; crash sites: %v", id, l.handed[id], l.crashes)
 		}
 	}
+	emptyAcked := 0
+	for _, id := range ids {
+		if l.recOf[id] == 0 {
+			emptyAcked++
+		}
+	}
+	if l.emptyFinal < emptyAcked {
+		l.failf("loss", locus+"/empty-request", "%d empty requests were accepted (enqueue returned nil to a live process) but only %d hand-offs of an empty request completed with a final outcome; crash sites: %v", emptyAcked, l.emptyFinal, l.crashes)
+	}
 	left := 0
 	for _, k := range l.disk.Keys() {
 		if _, err := strconv.ParseUint(k, 10, 64); err == nil {
@@ -543,6 +583,7 @@ func c01Config(tp *simkit.Tape) c01Cfg {
 			c.Retry = true // parts of one request that retry independently are where a request's outcome is combined
 		}
 	}
+	c.Empties = !c.Batcher && tp.Chance(1, 5)
 	c.StartIndex = []uint64{0, 0, 254, 65534, 4294967294, 1<<53 - 2, 1<<62 - 1}[tp.Draw(7)]
 	n := tp.Range(3, 10)
 	ops := []string{"E", "Ao", "Ap", "At", "T", "Ro", "Rt", "Y"}
@@ -552,6 +593,7 @@ func c01Config(tp *simkit.Tape) c01Cfg {
 		c.Consumers = tp.Range(9, 12)
 		c.Cap = 16
 		c.Batcher, c.BMin, c.BMax = false, 0, 0
+		c.Empties = false
 		for i := 0; i < c.Consumers+1; i++ {
 			c.Script = append(c.Script, "E")
 		}
@@ -594,7 +636,7 @@ func planToTape(plan []crashPoint) []int {
 }
 
 func planKey(cfg c01Cfg, plan []crashPoint) string {
-	return fmt.Sprintf("%d/%d/%v/%v/%d/%d/%d/%v|%v", cfg.Cap, cfg.Consumers, cfg.Retry, cfg.Batcher, cfg.BMin, cfg.BMax, cfg.StartIndex, cfg.Script, plan)
+	return fmt.Sprintf("%d/%d/%v/%v/%d/%d/%d/%v/%v|%v", cfg.Cap, cfg.Consumers, cfg.Retry, cfg.Batcher, cfg.BMin, cfg.BMax, cfg.StartIndex, cfg.Empties, cfg.Script, plan)
 }
 
 func runC01(r *simkit.Run) {
@@ -696,7 +738,7 @@ var HarnessC01 = simkit.Harness{
 	Prop: "C01", Name: "exp/c01", Run: runC01, StepTimeout: 20e9,
 	Real: []string{"exporterhelper.NewLogs exporter (real logs request type and protobuf encoding)", "queue sender, obsreport sender, retry sender", "queuebatch persistent queue + async consumers"},
 	Stub: []string{"storage extension: simdisk (durable map, atomic numbered calls, crash fence)", "backend (push function parks until the script answers)"},
-	Rule: "one run = one tape-drawn script of enqueue / answer(ok|permanent|transient) / advance / graceful-restart operations; mode enumerate: the crash-free lifetime, then EVERY (storage call k, before|after) of every incarnation as a process death, and for each of those every death point of the lifetimes that follow (depth 2; depth 3 in the thorough tier for scripts <= 6 ops), each lifetime ending with a fault-free draining incarnation; mode plan: one crash plan of depth <= 4 read from the tape. evaluations = lifetimes; distinct = distinct (config, script, crash plan); non-trivial = at least one death actually fired",
+	Rule: "one run = one tape-drawn script of enqueue / answer(ok|permanent|transient) / advance / graceful-restart operations (in 1 run in 5 without a batcher every third request is an empty payload, stored with a zero-length encoding); mode enumerate: the crash-free lifetime, then EVERY (storage call k, before|after) of every incarnation as a process death, and for each of those every death point of the lifetimes that follow (depth 2; depth 3 in the thorough tier for scripts <= 6 ops), each lifetime ending with a fault-free draining incarnation; mode plan: one crash plan of depth <= 4 read from the tape. evaluations = lifetimes; distinct = distinct (config, script, crash plan); non-trivial = at least one death actually fired",
 }
 
 // recordsOf lists the "req/idx" identities of the log records of a payload (from the record bodies "req-<id>/<idx>").
